@@ -42,12 +42,12 @@ func tbFamily(c *inst, raw json.RawMessage, full bool, sum *core.Summary) {
 					continue
 				}
 				for _, ldb := range []int{maxi(1, nrhs), nrhs + 2} {
-					for _, tr := range []blas.Transpose{blas.NoTrans, blas.Trans} {
+					for _, tr := range []blas.Transpose{blas.NoTrans, blas.Trans, blas.ConjTrans} {
 						for _, routine := range []string{"Dtbtrs", "lapack64.Tbtrs"} {
 							if routine == "lapack64.Tbtrs" && (ldb != maxi(1, nrhs) || nrhs != c.R || ldab != kd+1) {
 								continue
 							}
-							k.where = desc(routine, "upper", up, "trans", tr == blas.Trans, "unit", c.Unit, "n", n, "kd", kd, "nrhs", nrhs, "ldab", ldab, "ldb", ldb, "variant", c.V)
+							k.where = desc(routine, "upper", up, "trans", tr != blas.NoTrans, "unit", c.Unit, "n", n, "kd", kd, "nrhs", nrhs, "ldab", ldab, "ldb", ldb, "variant", c.V)
 							ab := packBand(c.T, n, kd, ldab, up, !up)
 							if c.Unit {
 								for i := 0; i < n; i++ {
